@@ -25,6 +25,7 @@ from ..jwsgen import alg_name
 from ..sched import Systematic, Stress, Stuck, INF
 from refjose import jws as rjws, jwe as rjwe
 from refjose.keys import RefKey
+from refjose.prim import b64u_enc as b64u_enc_
 from refjose.prim import b64u_dec, b64u_dec_lenient
 
 LEVEL = "exploration"
@@ -87,6 +88,13 @@ def world_spec(rng):
         tokens[f"jwej:{name}:{alg}:{enc}"] = g.make("general", enc, [(alg, keys[name]["jwk"], None)], payload, p2c=1000).token
         # the same token with a header parameter only a caller-built registry knows ("tenant")
         tokens[f"jwe-tenant:{name}:{alg}:{enc}"] = g.make("compact", enc, [(alg, keys[name]["jwk"], None)], payload, p2c=1000, extra_protected={"tenant": "t-1"}).token
+    # two tokens for one password that share the salt input and differ in the iteration count (a sender that reuses its salt)
+    from refjose import jwe as rjwe_
+    salt = b64u_enc_(b"\x01\x02\x03\x04\x05\x06\x07\x08\x09\x0a\x0b\x0c\x0d\x0e\x0f\x10")
+    for p2c in (1000, 1500, 1001):
+        tok, _info = rjwe_.encrypt({"alg": "PBES2-HS256+A128KW", "enc": "A128GCM", "p2s": salt, "p2c": p2c}, payload,
+                                   [{"header": None, "key": RefKey.from_jwk(keys["pw"]["jwk"]), "sender": None}], form="compact")
+        tokens[f"jwesalt:pw:same-salt-p2c{p2c}"] = tok
     for name, alg in (("hs", "HS256"), ("ec", "ES256")):
         tokens[f"jws-tenant:{name}:{alg}"] = rjws.compact({"alg": alg, "tenant": "t-1"}, payload, RefKey.from_jwk(keys[name]["jwk"]))
     return {"keys": keys, "tokens": tokens}
@@ -185,6 +193,8 @@ def op_pool(spec):
         ops.append({"k": "verify-shared-set", "alg": alg, "tok": f"jws:{kn}:{alg}", "keys": ["set:sig.pub"]})
     for alg, enc, kn in (("A128KW", "A128GCM", "oct128"), ("ECDH-ES+A256KW", "A256CBC-HS512", "x"), ("RSA-OAEP", "A128CBC-HS256", "rsa")):
         ops.append({"k": "encrypt-shared-set", "alg": alg, "enc": enc, "dec": kn, "keys": ["set:enc"]})
+    for tname in [t for t in spec["tokens"] if t.startswith("jwesalt:")]:
+        ops.append({"k": "decrypt", "key": "pw", "alg": "PBES2-HS256+A128KW", "enc": "A128GCM", "tok": tname, "via": "key"})
     # a caller-registered header parameter: known to that caller's registry only
     for tname in [t for t in spec["tokens"] if t.startswith("jwe-tenant:")]:
         _, name, alg, enc = tname.split(":")
